@@ -31,12 +31,12 @@ Definition dir_inv (m : mpc) (dn : bool) (x : dstate) : bool :=
   (* Proxy returns only after both directions have *)
   && (match m with MReturned => negb (reader_alive (rd x)) | _ => true end).
 
+Definition not_errsend (w : wpc) : bool := match w with WErrSend => false | _ => true end.
+
 Definition dinv (s : state) (d : side) : bool := dir_inv (main s) (done s) (getd s d).
 
 (* the upstream connection is closed exactly when Proxy has returned; the
    caller closes the client connection only after that *)
-Definition not_errsend (w : wpc) : bool := match w with WErrSend => false | _ => true end.
-
 Definition glob1 (s : state) : bool :=
   match main s with
   | MReturned => sc_closed s
@@ -127,6 +127,35 @@ Proof.
     - destruct (step c s0 l) as [s1|] eqn:E; [|discriminate].
       eapply IH; [|exact Hr]. split; eapply dinv_step_any; eassumption. }
   apply G. split; reflexivity.
+Qed.
+
+Definition noerr (s : state) : bool := not_errsend (wr (dc s)) && not_errsend (wr (ds s)).
+
+Lemma noerr_step_any : forall c s l s',
+  werr_buffered c = true -> noerr s = true -> step c s l = Some s' -> noerr s' = true.
+Proof.
+  intros c s l s' Hwb Hn Hs.
+  destruct_state s;
+  destruct l; repeat match goal with t : side |- _ => destruct t end;
+  cbn [step getd setd with_rd with_rd_rf exit_failed set_trig set_remote remote
+       dc ds main cli srv wbroken_c wbroken_s sc_closed cc_closed closing done trig
+       rd wr wfailed werr chan queued rf inflight other] in Hs;
+  try rewrite Hwb in Hs;
+  repeat bm; try discriminate Hs; inversion Hs; subst; clear Hs;
+  repeat match goal with t : side |- _ => destruct t end;
+  unfold noerr in *; red_state; try assumption;
+  split_hyps; split_goal; crush.
+Qed.
+
+Lemma noerr_reachable_any : forall c s, werr_buffered c = true -> reachable c s -> noerr s = true.
+Proof.
+  intros c s Hwb [ls H]. revert H.
+  assert (G : forall ks s0, noerr s0 = true -> run c s0 ks = Some s -> noerr s = true).
+  { induction ks as [|l ks IH]; intros s0 Hn Hr; simpl in Hr.
+    - inversion Hr; subst; assumption.
+    - destruct (step c s0 l) as [s1|] eqn:E; [|discriminate].
+      eapply IH; [|exact Hr]. eapply noerr_step_any; eassumption. }
+  apply G. reflexivity.
 Qed.
 
 Lemma glob1_step : forall s l s',
